@@ -30,16 +30,24 @@ Proof.
       apply used_le_maxb_spec. exact E5.
 Qed.
 
+Lemma vec_eqb_spec a b : vec_eqb a b = true -> forall d, vget a d = vget b d.
+Proof. unfold vec_eqb. rewrite all_dims_spec. intros H d. specialize (H d). lia. Qed.
+
 Lemma check_dump_sound wf st' ob :
   check_dump wf st' ob = 0 -> wf = true -> dump_holds st' ob.
 Proof.
-  unfold check_dump, dump_holds. intros H Hw q Hq Ht.
+  unfold check_dump, dump_holds. intros H Hw q Hq.
   destruct (eq_ids (map fst (o_dump ob)) (map q_id (quotas st'))); cbn [negb] in H; [|discriminate].
   rewrite Hw in H. cbn [andb] in H.
+  destruct (forallb (usage_exactb st') (sync (quotas st') (o_dump ob))) eqn:E6; cbn [negb] in H; [|discriminate].
   destruct (forallb (fun q => q_taint q || used_le_maxb q (q_used q)) (sync (quotas st') (o_dump ob))) eqn:E;
     cbn [negb] in H; [|discriminate].
-  rewrite forallb_forall in E. specialize (E q Hq). rewrite Ht in E. cbn [orb] in E.
-  apply used_le_maxb_spec. exact E.
+  rewrite forallb_forall in E6, E. split.
+  - intro d. specialize (E6 q Hq). unfold usage_exactb in E6. apply andb_true_iff in E6.
+    destruct E6 as [A B]. pose proof (vec_eqb_spec _ _ A d) as A'. pose proof (vec_eqb_spec _ _ B d) as B'.
+    rewrite vget_vmk in A', B'. split; assumption.
+  - intro Ht. specialize (E q Hq). rewrite Ht in E. cbn [orb] in E.
+    apply used_le_maxb_spec. exact E.
 Qed.
 
 Lemma check_op_sound cfg wf st o ob :
@@ -65,7 +73,7 @@ Fixpoint holds (cfg : config) (wf : bool) (st : state) (sn : snap) (prev : list 
     let st1 := sync_state st prev in
     let wf' := wf && op_okb st1 sn o in
     step_holds cfg wf' st1 o ob
-    /\ holds cfg wf' (fst (step cfg st1 o)) (track cfg st1 sn o) (o_dump ob) ops' os'
+    /\ holds cfg wf' (force cfg st1 o (o_status ob)) (track cfg st1 sn o) (o_dump ob) ops' os'
   | _, _ => False
   end.
 
